@@ -167,7 +167,10 @@ class Judge(object):
             return None
         if skip_value or ref is None:
             return m
-        if not (m == m) or abs(m - ref) > tol * abs(ref) + 1e-300:
+        # (the relative permittivity is a sum of terms of order 1..100 that cancels to ~0 far above the validity range: there a
+        # relative tolerance on the result would demand more digits than the 1e-16 rounding of a converted temperature leaves)
+        floor = 1.0 if self.fn == "water_permittivity" else 0.0
+        if not (m == m) or abs(m - ref) > tol * max(abs(ref), floor) + 1e-300:
             self.fail(mode, "value", "%s %s = %r, expected %r (rel. tol %g)" % (self.fn, label, m, ref, tol), m, ref)
             return None
         d = abs(m - ref) / abs(ref) if ref else 0.0
